@@ -1,5 +1,26 @@
 """Per-property configuration for bin/check."""
 
+
+def _ops_entry(pid, theorems, focus):
+    return dict(
+        driver=pid,
+        model="Model/OpState.v",
+        run_fn="run_opcase",
+        theorems=theorems,
+        rule="one splitmix64 stream per case: 1..4 real operations (read into a heap buffer, zero-copy send with two "
+             "completions, multishot accept) on a simulated ring with 1..8 submission slots and random 32-bit start "
+             "counters; 4..26 events drawn from {poll with the same or a fresh waker, drop of the future, Ring::poll, "
+             "kernel completion: success / short / error / EINTR / ECANCELED / more / notif}, cancellation winning or "
+             "losing per operation; event weights biased towards " + focus + "; non-trivial = at least 4 events incl. a "
+             "kernel completion; distinct by the Coq case term",
+        assumptions=["kernel contract K1, K2, K4 (DESIGN.md §5) as implemented by the simulated kernel",
+                     "API calls are atomic with respect to completion processing (per-operation mutex held across "
+                     "submission and waker store; validated by the scheduler runs of C03/C04, not proved)",
+                     "the completion queue is large enough (256) that no completion waits on the overflow list"],
+        trusted=["simulated kernel harness/src/simk.rs", "tracking allocator harness/src/alloc.rs (which heap block "
+                 "an address belongs to; frees of operation states)", "a10 verif hooks A/B"],
+    )
+
 PROPS = {
     "C05": dict(
         driver="C05",
